@@ -35,7 +35,7 @@ When(cond, i, c) == IF cond THEN V(i, c) ELSE {}
 Cf0 == [mode |-> "-", pk |-> "rr", np |-> [ta |-> 1, tb |-> 1], rets |-> TRUE, quirks |-> FALSE]
 Cb0 == [p \in CParts |-> 0]     \* offset before the first message yielded on p, as observed
 St0 == [cases |-> 0, sends |-> 0, batches |-> 0, csends |-> 0, cops |-> 0, closes |-> 0, outcomes |-> 0, reports |-> 0]
-Init == /\ l = 1 /\ viol = {} /\ cf = Cf0 /\ ps = PInit /\ pm = <<>> /\ obs = <<>>
+Init == /\ l = 1 /\ viol = {} /\ cf = Cf0 /\ ps = PInit0(0) /\ pm = <<>> /\ obs = <<>>
         /\ repE = <<>> /\ repO = <<>> /\ lastOff = 0 /\ cs = CInit /\ cb = Cb0 /\ st = St0
 
 Get(f, k, d) == IF k \in DOMAIN f THEN f[k] ELSE d
@@ -101,7 +101,7 @@ ExpectAll(s, kinds) == IF kinds = <<>> THEN s ELSE ExpectAll(PExpect(s, Head(kin
 TReset ==
   /\ E.ev = "reset"
   /\ cf' = [mode |-> E.mode, pk |-> E.pk, np |-> [ta |-> E.npa, tb |-> E.npd], rets |-> E.rets, quirks |-> FALSE]
-  /\ ps' = ExpectAll(PInit, E.script) /\ pm' = <<>> /\ obs' = <<>> /\ repE' = <<>> /\ repO' = <<>> /\ lastOff' = 0 /\ cs' = CInit /\ cb' = Cb0
+  /\ ps' = ExpectAll(PInit0(E.npa), E.script) /\ pm' = <<>> /\ obs' = <<>> /\ repE' = <<>> /\ repO' = <<>> /\ lastOff' = 0 /\ cs' = CInit /\ cb' = Cb0
   /\ st' = [st EXCEPT !.cases = @ + 1]
   \* the violations of the previous case are printed and dropped (keeps the observer's state small)
   /\ (viol # {}) => PrintT(<<"VIOL", ToJson(viol)>>)
@@ -110,6 +110,12 @@ TReset ==
 TExpect ==
   /\ E.ev = "expect"
   /\ ps' = PExpect(ps, E.kind)
+  /\ UNCHANGED <<viol, cf, pm, obs, repE, repO, lastOff, cs, cb, st>>
+
+\* TopicConfig.SetPartitions(map[string]int32{E.topic: E.n}) on the mock
+TSetParts ==
+  /\ E.ev = "setparts"
+  /\ ps' = PSetParts(ps, E.topic, E.n)
   /\ UNCHANGED <<viol, cf, pm, obs, repE, repO, lastOff, cs, cb, st>>
 
 TSend ==
@@ -236,7 +242,7 @@ TEnd == /\ E.ev = "end"
 
 Next == /\ l <= Len(Trace)
         /\ l' = l + 1
-        /\ (TReset \/ TExpect \/ TSend \/ TBatch \/ TCSend \/ TClose \/ TCop \/ TCend \/ TEnd)
+        /\ (TReset \/ TExpect \/ TSetParts \/ TSend \/ TBatch \/ TCSend \/ TClose \/ TCop \/ TCend \/ TEnd)
 Spec == Init /\ [][Next]_vars
 Accepted == TLCGet("stats").diameter - 1 = Len(Trace)
 =============================================================================
